@@ -7,7 +7,7 @@
 //
 // Case layouts (first value = tag, all values wire.Int unless noted):
 //
-//	1 SEARCH : kind base n (opt ts)*n curOK t | errclass seq ts ntrace trace*
+//	1 SEARCH : kind base n (opt ts)*n curOK tsec tnano | errclass seq ts ntrace trace*   (query time = epoch + tsec s + tnano ns)
 //	           kind: 0 minute 1 hour 2 day 3 changesets; file base+i has stamp ts_i (nanoseconds
 //	           relative to the epoch below) or is missing; the newest file is base+n-1 and the
 //	           "current" state file names it (curOK=0: the current state file is missing).
@@ -334,9 +334,9 @@ func stateAt(ds *replication.Datasource, kind int, t time.Time) (uint64, *replic
 
 // specSearch is the property text, evaluated on the directory alone:
 // the first available state at or after t, else the newest.
-func specSearch(d *dirSpec, min uint64, t int64) (uint64, int64) {
+func specSearch(d *dirSpec, min uint64, qt time.Time) (uint64, int64) {
 	last := *d.ts[len(d.ts)-1]
-	if t > last {
+	if qt.After(epoch.Add(time.Duration(last))) {
 		return d.cur(), last
 	}
 	for i, p := range d.ts {
@@ -344,20 +344,67 @@ func specSearch(d *dirSpec, min uint64, t int64) (uint64, int64) {
 		if n < min || p == nil {
 			continue
 		}
-		if t <= *p {
+		if !qt.After(epoch.Add(time.Duration(*p))) {
 			return n, *p
 		}
 	}
 	return d.cur(), last
 }
 
+// missingCount / requestBound: the request bound of the property as proved (C19_request_bound_explicit):
+// 2 + 2*log2_up(cur-min+1) + number of missing files in min..cur-1
+func missingCount(d *dirSpec, min uint64) int {
+	m := 0
+	for n := min; n < d.cur(); n++ {
+		if n < d.base || d.ts[n-d.base] == nil {
+			m++
+		}
+	}
+	return m
+}
+
+func requestBound(d *dirSpec, min uint64) int {
+	if d.cur() < min {
+		return 1 << 30
+	}
+	r, l := d.cur()-min+1, 0
+	for (uint64(1) << uint(l)) < r {
+		l++
+	}
+	return 2 + 2*l + missingCount(d, min)
+}
+
 func searchCase(w *world, ds *replication.Datasource, d *dirSpec, t int64, min uint64) *wire.Case {
+	return searchCaseAt(w, ds, d, epoch.Add(time.Duration(t)), min)
+}
+
+// farTimes: query times far outside any data (and outside what fits in an int64 of nanoseconds
+// since 1970: 1677-09-21 .. 2262-04-11), the zero time included
+var farTimes = []time.Time{
+	{},
+	time.Date(1000, 1, 1, 0, 0, 0, 0, time.UTC),
+	time.Date(1600, 6, 15, 12, 0, 0, 0, time.UTC),
+	time.Date(1677, 9, 21, 0, 12, 43, 145224191, time.UTC),
+	time.Date(1677, 9, 21, 0, 12, 43, 145224193, time.UTC),
+	time.Date(1969, 12, 31, 23, 59, 59, 999999999, time.UTC),
+	time.Date(1970, 1, 1, 0, 0, 0, 0, time.UTC),
+	time.Date(2262, 4, 11, 23, 47, 16, 854775807, time.UTC),
+	time.Date(2262, 4, 11, 23, 47, 16, 854775808, time.UTC),
+	time.Date(2263, 1, 1, 0, 0, 0, 0, time.UTC),
+	time.Date(9999, 12, 31, 23, 59, 59, 999999999, time.UTC),
+}
+
+// searchCaseAt: the query time is a time.Time (it need not fit the int64 nanoseconds used for the
+// stamps); it is sent as (seconds, nanoseconds) relative to the epoch.
+func searchCaseAt(w *world, ds *replication.Datasource, d *dirSpec, qt time.Time, min uint64) *wire.Case {
 	budget := 4*len(d.ts) + 200
 	w.rearm(budget)
 	var n uint64
 	var st *replication.State
 	var err error
-	zone := withZone(func() { n, st, err = stateAt(ds, d.kind, epoch.Add(time.Duration(t))) })
+	tsec, tnano := qt.Unix()-epoch.Unix(), int64(qt.Nanosecond())
+	t := qt.UTC().Format(time.RFC3339Nano)
+	zone := withZone(func() { n, st, err = stateAt(ds, d.kind, qt) })
 	if lastPanic != "" {
 		err = fmt.Errorf("panic: %s", lastPanic)
 	}
@@ -377,7 +424,7 @@ func searchCase(w *world, ds *replication.Datasource, d *dirSpec, t int64, min u
 			stamps = append(stamps, *p)
 		}
 	}
-	c.Bool(d.curOK).Int(t)
+	c.Bool(d.curOK).Int(tsec).Int(tnano)
 	errclass, seq, ts := int64(0), int64(0), int64(0)
 	es := ""
 	if err != nil {
@@ -403,12 +450,14 @@ func searchCase(w *world, ds *replication.Datasource, d *dirSpec, t int64, min u
 	c.Desc = desc
 	// Go-side oracle (kept so that a failing input is found even when the Coq side is broken)
 	if d.curOK {
-		wn, wts := specSearch(d, min, t)
+		wn, wts := specSearch(d, min, qt)
 		switch {
 		case errclass != 0:
 			c.OracleFail = fmt.Sprintf("search failed after %d requests (budget %d): %s", len(trace), budget, es)
+		case len(trace) > requestBound(d, min):
+			c.OracleFail = fmt.Sprintf("%d requests for a directory of %d files with %d missing: more than 2 + 2*log2_up(range) + missing = %d", len(trace), len(d.ts), missingCount(d, min), requestBound(d, min))
 		case uint64(seq) != wn || ts != wts:
-			c.OracleFail = fmt.Sprintf("returned state %d (stamp %d), the first state at or after t=%d is %d (stamp %d)", seq, ts, t, wn, wts)
+			c.OracleFail = fmt.Sprintf("returned state %d (stamp %d), the first state at or after t=%s is %d (stamp %d)", seq, ts, t, wn, wts)
 		}
 	}
 	return c
@@ -438,6 +487,11 @@ func genDir(rng *rand.Rand, kind int, big bool) *dirSpec {
 	cur := int64(rng.Intn(1000)) * step
 	stamps := make([]int64, n)
 	eq := rng.Intn(8) == 0
+	// one long pause in the replication (years) somewhere: the stamps are very uneven
+	pauseAt := -1
+	if big || rng.Intn(6) == 0 {
+		pauseAt = []int{1, n - 1, n / 2, rng.Intn(n)}[rng.Intn(4)]
+	}
 	for i := range stamps {
 		inc := int64(1+rng.Intn(90)) * step
 		if kind == 3 {
@@ -445,6 +499,9 @@ func genDir(rng *rand.Rand, kind int, big bool) *dirSpec {
 		}
 		if eq && rng.Intn(3) == 0 && i > 0 {
 			inc = 0
+		}
+		if i == pauseAt {
+			inc = int64(1+rng.Intn(3)) * 365 * 24 * 3600 * int64(time.Second)
 		}
 		cur += inc
 		stamps[i] = cur
@@ -461,6 +518,9 @@ func genDir(rng *rand.Rand, kind int, big bool) *dirSpec {
 		}
 	}
 	pat := rng.Intn(10)
+	if big && rng.Intn(2) == 0 {
+		pat = 0 // every file present: the request count must be purely logarithmic
+	}
 	switch pat {
 	case 0:
 		d.class = "nogap"
@@ -510,6 +570,9 @@ func genDir(rng *rand.Rand, kind int, big bool) *dirSpec {
 	}
 	if eq {
 		d.class += "+equal"
+	}
+	if pauseAt >= 0 {
+		d.class += "+pause"
 	}
 	if rng.Intn(12) == 0 && kind != 3 {
 		// the directory starts above the first considered sequence number
@@ -1252,6 +1315,13 @@ func main() {
 			searchIdx = append(searchIdx, wr.Add(c))
 			wr.Count(fmt.Sprintf("files:%d", bucket(len(d.ts))))
 		}
+		if i%3 == 0 {
+			// a query time far outside the data (and outside int64 nanoseconds since 1970)
+			c := searchCaseAt(world, ds, d, farTimes[(i/3)%len(farTimes)], min[d.kind])
+			c.Class += "/far-time"
+			c.Trivial = len(d.ts) < 2
+			searchIdx = append(searchIdx, wr.Add(c))
+		}
 		if rng.Intn(40) == 0 {
 			// the current state file is missing
 			d2 := *d
@@ -1378,7 +1448,7 @@ func traceLenPos(c *wire.Case) int {
 			p += 2
 		}
 	}
-	p += 2 // curOK t
+	p += 3 // curOK tsec tnano
 	p += 3 // errclass seq ts
 	return p
 }
